@@ -52,6 +52,65 @@ fn main() {
                 }
             }
         }
+        // the other checked constructors and the wrappers h3 itself calls (proto/coding.rs, proto/varint.rs)
+        ["vi.try64", x] => {
+            let x: u64 = x.parse().unwrap();
+            match VarInt::try_from(x) {
+                Err(_) => "err bounds".into(),
+                Ok(v) => {
+                    let mut b = Vec::new();
+                    v.encode(&mut b);
+                    format!("ok {}", hex(&b))
+                }
+            }
+        }
+        ["vi.tryus", x] => {
+            let x: u64 = x.parse().unwrap();
+            match VarInt::try_from(x as usize) {
+                Err(_) => "err bounds".into(),
+                Ok(v) => {
+                    let mut b = Vec::new();
+                    v.encode(&mut b);
+                    format!("ok {}", hex(&b))
+                }
+            }
+        }
+        ["vi.push", x] => {
+            let x: u64 = x.parse().unwrap();
+            match h3::proto::push::PushId::try_from(x) {
+                Err(_) => "err bounds".into(),
+                Ok(id) => {
+                    let v: VarInt = id.into();
+                    let mut b = Vec::new();
+                    v.encode(&mut b);
+                    format!("ok {}", hex(&b))
+                }
+            }
+        }
+        ["vi.wvar", which, x] => {
+            let x: u64 = x.parse().unwrap();
+            let mut b = Vec::new();
+            if *which == "c" {
+                h3::proto::coding::BufMutExt::write_var(&mut b, x);
+            } else {
+                h3::proto::varint::BufMutExt::write_var(&mut b, x);
+            }
+            format!("ok {}", hex(&b))
+        }
+        ["vi.gvar", which, chunks] => {
+            let cs: Vec<bytes::Bytes> = if *chunks == "-" { vec![] } else { chunks.split('.').map(|c| bytes::Bytes::from(unhex(c))).collect() };
+            let mut buf = h3v::ChunkBuf::new(cs);
+            let r = if *which == "c" {
+                h3::proto::coding::BufExt::get_var(&mut buf).map_err(|e| e.0)
+            } else {
+                h3::proto::varint::BufExt::get_var(&mut buf).map_err(|e| e.0)
+            };
+            let rest = buf.copy_to_bytes(buf.remaining());
+            match r {
+                Ok(x) => format!("ok {} {}", x, hex(&rest)),
+                Err(e) => format!("err {} {}", e, hex(&rest)),
+            }
+        }
         ["sid", x] => {
             let x: u64 = x.parse().unwrap();
             match StreamId::try_from(x) {
